@@ -2,7 +2,7 @@
 import ast
 
 from ..model import AnalysisError, Model, walk_no_nested, norm_stmt
-from .. import flow, protocol, dispatch, siblings, evalexpr, sem, bitmachine
+from .. import flow, protocol, dispatch, siblings, evalexpr, sem, bitmachine, defaults
 
 EXPLANATION = (
     'Decided: (R1) the Encoder/Decoder primitive pairs of per.py use the same boundary tables and these equal the X.691 constants: constrained '
@@ -278,23 +278,65 @@ def check(ctx):
     if n2 < 10:
         raise AnalysisError('C05.R2 compared only %d uper overrides' % n2)
 
-    # ---- R3
+    # ---- R3: the SET cell hands a true flag to a members compiler that sorts under that flag
+    def true_flags(call, callee):
+        """parameter names of callee that this call binds to the constant True (keywords, **{..} displays, positionals)"""
+        out = set()
+        for k in call.keywords:
+            if k.arg is not None and isinstance(k.value, ast.Constant) and k.value.value is True:
+                out.add(k.arg)
+            elif k.arg is None and isinstance(k.value, ast.Dict):
+                for kk, vv in zip(k.value.keys, k.value.values):
+                    if isinstance(kk, ast.Constant) and isinstance(vv, ast.Constant) and vv.value is True:
+                        out.add(kk.value)
+        params = [a_.arg for a_ in callee.args.args][1:]
+        for pn, a_ in zip(params, call.args):
+            if isinstance(a_, ast.Constant) and a_.value is True:
+                out.add(pn)
+        return out
+
+    def sorts_in(g, res, depth=0):
+        for n in walk_no_nested(g):
+            if isinstance(n, ast.Call):
+                if (isinstance(n.func, ast.Name) and n.func.id == 'sorted') or (isinstance(n.func, ast.Attribute) and n.func.attr == 'sort'):
+                    return True
+                h = res(n) if depth < 2 else None
+                if h is not None and h is not g and sorts_in(h, res, depth + 1):
+                    return True
+        return False
+
     for codec in ('per', 'uper'):
         tab = dispatch.table(model, codec)
         cell = tab.cells.get('SET')
-        ok = any(isinstance(n, ast.Call) and any(k.arg == 'sort_by_tag' and isinstance(k.value, ast.Constant) and k.value.value is True for k in n.keywords)
-                 for st_ in cell.body for n in ast.walk(st_))
-        ctx.instance('C05.R3', "%s dispatch 'SET' passes sort_by_tag=True" % codec, 'ok' if ok else 'VIOLATION', node=cell.ctor, file=tab.rel)
-        if not ok:
-            ctx.violation('C05.R3', tab.rel, cell.ctor or tab.func, "%s::Compiler dispatch['SET']" % tab.rel, 'SET components are no longer put into canonical tag order (X.691 22 / X.680 8.6)', stmt='SET sort_by_tag')
-    cm = model.func(PER, 'Compiler.compile_members')
-    sorts = [n for n in walk_no_nested(cm) if isinstance(n, ast.Call) and ((isinstance(n.func, ast.Name) and n.func.id == 'sorted') or (isinstance(n.func, ast.Attribute) and n.func.attr == 'sort'))]
-    ok = any(any(pol and 'sort_by_tag' in ast.unparse(t) for t, pol in flow.guards_of(n, cm)) or
-             any(isinstance(a, ast.IfExp) and 'sort_by_tag' in ast.unparse(a.test) for a in flow.ancestors(n)) for n in sorts) and 'CLASS_PRIO' in per.consts
-    # the sort key uses class priority then number
-    ctx.instance('C05.R3', 'per compile_members sorts when sort_by_tag', 'ok' if ok else 'VIOLATION', node=cm, file=PER)
-    if not ok:
-        ctx.violation('C05.R3', PER, cm, Model.qual(cm), 'compile_members no longer sorts SET members by tag', stmt='sort')
+        comp = model.cls(tab.rel, 'Compiler')
+        res = sem.class_resolver(comp)
+        verdict, why = 'VIOLATION', 'the SET cell calls no members compiler with a true flag under which the members are sorted'
+        for st_ in cell.body:
+            for n in ast.walk(st_):
+                if not isinstance(n, ast.Call):
+                    continue
+                g = res(n)
+                if g is None:
+                    continue
+                flags = true_flags(n, g)
+                if not flags:
+                    continue
+                ps = sem.paths(g, resolver=res)
+                if ps is None:
+                    verdict, why = 'undecided', '%s has too many paths' % g.name
+                    continue
+                for p_, conds, node, sx in defaults.call_events(ps):
+                    is_sort = (isinstance(node.func, ast.Name) and node.func.id == 'sorted') or (isinstance(node.func, ast.Attribute) and node.func.attr == 'sort')
+                    if not is_sort:
+                        h = res(node)
+                        is_sort = h is not None and h is not g and sorts_in(h, res)
+                    if is_sort and any(c[0] in flags and c[1] for c in conds):
+                        verdict, why = 'ok', '%s sorts under %s' % (g.name, '/'.join(sorted(flags)))
+        ctx.instance('C05.R3', "%s dispatch 'SET' has its members sorted" % codec, verdict, why, node=cell.ctor, file=tab.rel)
+        if verdict == 'VIOLATION':
+            ctx.violation('C05.R3', tab.rel, cell.ctor or tab.func, "%s::Compiler dispatch['SET']" % tab.rel, 'SET components are no longer put into canonical tag order (X.691 22 / X.680 8.6): ' + why, stmt='SET sort_by_tag')
+    if 'CLASS_PRIO' not in per.consts:
+        raise AnalysisError('per.CLASS_PRIO vanished')
     prio = per.const_value('CLASS_PRIO')
     ok = prio.get('UNIVERSAL') < prio.get('APPLICATION') < prio.get('CONTEXT_SPECIFIC') < prio.get('PRIVATE')
     ctx.instance('C05.R3', 'CLASS_PRIO %s' % prio, 'ok' if ok else 'VIOLATION', node=per.consts['CLASS_PRIO'], file=PER)
